@@ -367,3 +367,35 @@ func vh_leadership_transfer() {
 	}
 	vReach("transfer.end")
 }
+
+// vh_lease_rearm: the lease case of leaderLoop with the quorum still in
+// contact: the leader stays, and the timer is re-armed with
+// max(LeaderLeaseTimeout - maxDiff, 10ms): never longer than the lease.
+func vh_lease_rearm() {
+	r, env := vNewRaft("L", vRaftOpts{n: 2, w: 3, shaped: true})
+	vAssume(r.lastSnapshotIndex == vBase() && env.logs.low == vBase()+1 && env.logs.high == vBase()+1)
+	vAssume(vInvBasic(r, env))
+	vAssume(vInvLog(r, env, 3))
+	servers := r.configurations.latest.Servers
+	vAssume(servers[0].Suffrage == Voter && servers[1].Suffrage == Voter)
+	vMakeLeader(r, "L", 0)
+	cfg := r.conf.Load().(Config)
+	cfg.LeaderLeaseTimeout = 500 * time.Millisecond
+	cfg.HeartbeatTimeout = 3 * time.Second // a valid configuration: lease <= heartbeat <= election
+	cfg.ElectionTimeout = 3 * time.Second
+	r.conf.Store(cfg)
+	t0 := time.Now()
+	s := r.leaderState.replState[servers[1].ID]
+	vAssume(!s.lastContact.After(t0) && t0.Sub(s.lastContact) < 100*time.Millisecond) // fresh contact
+	vSpawnPolicy(false)
+	vTimerMode(3) // the lease timer is due once
+	vRunUntilBlocked(r.leaderLoop)
+	d := vLastTimerDuration()
+	if r.getState() == Leader {
+		vCover("rearm.stays-leader")
+		vAssert(d <= cfg.LeaderLeaseTimeout && d >= minCheckInterval, "C13.loop.next-check-within-one-lease")
+	} else {
+		vCover("rearm.stepped-down") // the symbolic clock may have advanced past the lease between the two readings
+	}
+	vReach("rearm.end")
+}
